@@ -75,6 +75,17 @@ static double rat(const struct cmd *c, const char *key, double def)
 	return r;
 }
 /* array with the given content (built directly, no array calls involved) */
+static int make_array_used(MPT_STRUCT(array) *a, int type, const void *data, size_t len, size_t used)
+{
+	MPT_STRUCT(buffer) *b;
+	a->_buf = 0;
+	if (!(b = _mpt_buffer_alloc(len ? len : 1, 0))) return -1;
+	b->_content_traits = mpt_type_traits(type);
+	if (len) memcpy(b + 1, data, len);   /* bytes behind the used size stay in the storage */
+	b->_used = used;
+	a->_buf = b;
+	return 0;
+}
 static int make_array(MPT_STRUCT(array) *a, int type, const void *data, size_t len)
 {
 	MPT_STRUCT(buffer) *b;
@@ -147,7 +158,11 @@ static void drv_step(struct cmd *c)
 			if (!strcmp(via, "args")) { memcpy(seg, "cmd", 4); off = 4; }
 			if (dl) memcpy(seg + off, desc, dl + 1);
 			for (k = 0; k < dl; k++) if (seg[off + k] == '|') seg[off + k] = 0;
-			if (off + len) make_array(&arr, 'c', seg, off + len);
+			{
+				size_t cut = drv_uint(c, "cut", 0), total = off + len;
+				if (cut > total) cut = total;
+				if (total) make_array_used(&arr, 'c', seg, total, total - cut);
+			}
 			m = !strcmp(via, "args") ? mpt_meta_arguments(&arr) : mpt_meta_buffer(&arr);
 			mpt_array_clone(&arr, 0);
 			free(seg);
